@@ -13,8 +13,10 @@
                  ppoll -> poll (ppoll ENOSYS); never back, never across families
      use_raw     iv_event_use_event_raw (iv_event.c)             false -> true only
 
-   `FL s s'` says: from s to s' every flag moved in its documented direction (or not at all) and
-   the kernel's fault oracle -- what the kernel supports, `flt (kern s)` -- is the same.  FL is a
+   `FL s s'` says: from s to s' every flag kept its value or moved in its documented direction, and
+   it moved only if the kernel's fault oracle -- what the kernel supports, `flt (kern s)` -- demands
+   it (epoll_pwait2 ENOSYS/EPERM, eventfd/eventfd2 ENOSYS, timerfd_create ENOSYS, ppoll ENOSYS);
+   the oracle itself is the same in s and s'.  FL is a
    preorder and every operation of the model satisfies it (for both outcomes R s' and Halt s').
    The idempotence lemmas at the end say that a write stores a value determined by the kernel's
    answer alone, which is a function of the constant oracle: two threads that write the same flag
@@ -25,16 +27,19 @@ From Ivv Require Timer.HeapModel.
 Import ListNotations.
 Local Open Scope Z_scope.
 
-(* ---- the order ---- *)
-Definition efd_le (new old : Z) : Prop := new = old \/ new = 0 \/ (old = 2 /\ new = 1).
-Definition method_le (new old : Z) : Prop :=
-  new = old \/ (old = M_ET /\ new = M_EP) \/ (old = M_PP /\ new = M_PO).
+(* ---- the order: a flag keeps its value, or moves one way AND the kernel's oracle says why ---- *)
+Definition pw_le (f : faults) (new old : bool) : Prop :=
+  new = old \/ (old = true /\ new = false /\ no_pwait2 f || perm_pwait2 f = true).
+Definition efd_le (f : faults) (new old : Z) : Prop :=
+  new = old \/ ((new = 0 \/ (old = 2 /\ new = 1)) /\ no_eventfd f || no_eventfd2 f = true).
+Definition method_le (f : faults) (new old : Z) : Prop :=
+  new = old \/ (old = M_ET /\ new = M_EP /\ no_timerfd f = true) \/ (old = M_PP /\ new = M_PO /\ no_ppoll f = true).
 
 Record FL (s s' : core) : Prop := {
-  fl_pwait2 : pwait2 s' = true -> pwait2 s = true;
-  fl_efd_epoll : efd_le (efd_epoll s') (efd_epoll s);
-  fl_efd_raw : efd_le (efd_raw s') (efd_raw s);
-  fl_method : method_le (method s') (method s);
+  fl_pwait2 : pw_le (flt (kern s)) (pwait2 s') (pwait2 s);
+  fl_efd_epoll : efd_le (flt (kern s)) (efd_epoll s') (efd_epoll s);
+  fl_efd_raw : efd_le (flt (kern s)) (efd_raw s') (efd_raw s);
+  fl_method : method_le (flt (kern s)) (method s') (method s);
   fl_use_raw : use_raw s = true -> use_raw s' = true;
   fl_flt : flt (kern s') = flt (kern s)
 }.
@@ -43,16 +48,25 @@ Record FL (s s' : core) : Prop := {
 Definition fv (s : core) : bool * Z * Z * Z * bool * faults :=
   (pwait2 s, efd_epoll s, efd_raw s, method s, use_raw s, flt (kern s)).
 
-Lemma efd_le_refl : forall a, efd_le a a. Proof. left; reflexivity. Qed.
-Lemma efd_le_trans : forall a b c, efd_le a b -> efd_le b c -> efd_le a c.
-Proof. unfold efd_le. intros a b c H1 H2. lia. Qed.
-Lemma method_le_refl : forall a, method_le a a. Proof. left; reflexivity. Qed.
-Lemma method_le_trans : forall a b c, method_le a b -> method_le b c -> method_le a c.
-Proof. unfold method_le, M_ET, M_EP, M_PP, M_PO. intros a b c H1 H2. lia. Qed.
+Lemma efd_le_refl : forall f a, efd_le f a a. Proof. left; reflexivity. Qed.
+Lemma efd_le_trans : forall f a b c, efd_le f a b -> efd_le f b c -> efd_le f a c.
+Proof. unfold efd_le. intros f a b c H1 H2. destruct (no_eventfd f || no_eventfd2 f); intuition lia. Qed.
+Lemma method_le_refl : forall f a, method_le f a a. Proof. left; reflexivity. Qed.
+Lemma method_le_trans : forall f a b c, method_le f a b -> method_le f b c -> method_le f a c.
+Proof.
+  unfold method_le, M_ET, M_EP, M_PP, M_PO. intros f a b c H1 H2.
+  destruct (no_timerfd f); destruct (no_ppoll f); intuition lia.
+Qed.
+Lemma pw_le_refl : forall f a, pw_le f a a. Proof. left; reflexivity. Qed.
+Lemma pw_le_trans : forall f a b c, pw_le f a b -> pw_le f b c -> pw_le f a c.
+Proof.
+  unfold pw_le. intros f a b c H1 H2. destruct a, b, c; intuition congruence.
+Qed.
 
 Lemma FL_fv : forall s s', fv s' = fv s -> FL s s'.
 Proof.
   unfold fv. intros s s' H. inversion H. constructor; try congruence.
+  - rewrite H1. apply pw_le_refl.
   - rewrite H2. apply efd_le_refl.
   - rewrite H3. apply efd_le_refl.
   - rewrite H4. apply method_le_refl.
@@ -63,11 +77,11 @@ Proof. intro s. apply FL_fv. reflexivity. Qed.
 
 Lemma FL_trans : forall a b c, FL a b -> FL b c -> FL a c.
 Proof.
-  intros a b c [A1 A2 A3 A4 A5 A6] [B1 B2 B3 B4 B5 B6]. constructor; auto.
+  intros a b c [A1 A2 A3 A4 A5 A6] [B1 B2 B3 B4 B5 B6]. rewrite A6 in *. constructor; auto.
+  - eapply pw_le_trans; eauto.
   - eapply efd_le_trans; eauto.
   - eapply efd_le_trans; eauto.
   - eapply method_le_trans; eauto.
-  - congruence.
 Qed.
 
 (* both outcomes *)
@@ -299,11 +313,11 @@ Proof.
     rewrite ?EM, ?NE, ?NE2 in H; cbn in H; inversion H; subst; split; reflexivity.
 Qed.
 
-Lemma grab_flag_le : forall f u, efd_le (grab_flag f u) u.
+Lemma grab_flag_le : forall f u, efd_le f (grab_flag f u) u.
 Proof.
   intros f u. unfold grab_flag, efd_le.
   destruct (u =? 2) eqn:E2; destruct (emfile f); destruct (no_eventfd f); destruct (no_eventfd2 f);
-    destruct (u =? 0) eqn:E0; cbn; lia.
+    destruct (u =? 0) eqn:E0; cbn; try (left; reflexivity); try (left; lia); right; split; try reflexivity; lia.
 Qed.
 
 Lemma grab_flag_idem : forall f u, grab_flag f (grab_flag f u) = grab_flag f u.
@@ -438,9 +452,10 @@ Qed.
 
 Lemma FL_efd : forall s s' e1 e2,
   fv s' = (pwait2 s, e1, e2, method s, use_raw s, flt (kern s)) ->
-  efd_le e1 (efd_epoll s) -> efd_le e2 (efd_raw s) -> FL s s'.
+  efd_le (flt (kern s)) e1 (efd_epoll s) -> efd_le (flt (kern s)) e2 (efd_raw s) -> FL s s'.
 Proof.
   intros s s' e1 e2 H L1 L2. unfold fv in H. inversion H. constructor; try congruence.
+  - rewrite H1. apply pw_le_refl.
   - rewrite H4. apply method_le_refl.
 Qed.
 
@@ -505,3 +520,551 @@ Proof.
   - transitivity (fv (do_close (do_close s2 (active_fd s2)) (active_wr (do_close s2 (active_fd s2)))));
       [reflexivity|rewrite fv_do_close; apply fv_do_close].
 Qed.
+
+(* iv_event_register: iv_event_use_event_raw is only ever set (to 1) *)
+Lemma er_tail : forall s1 j,
+  FLr s1 (fst (let '(r, failed) :=
+                 if use_raw s1 then
+                   match raw_register s1 KICK_RAW with
+                   | (R s2, true) =>
+                       (R (set_numobjs (set_ev s2 (ev_count s2 - 1) (ev_reg s2) (use_raw s2)) (numobjs s2 - 1)), true)
+                   | (r2, fl) => (r2, fl)
+                   end
+                 else (R s1, false) in
+               if failed then (r, true)
+               else (bind r (fun s => R (set_ev s (ev_count s) (upd (ev_reg s) j true) (use_raw s))), false))).
+Proof.
+  intros s1 j. destruct (use_raw s1).
+  - pose proof (FLr_raw_register s1 KICK_RAW) as X. destruct (raw_register s1 KICK_RAW) as [[s2|s2] b]; simpl in X;
+      destruct b; cbn [fst bind]; unfold FLr in *; cbn [res_state] in *;
+      try exact X; (eapply FL_trans; [exact X|apply FL_fv; reflexivity]).
+  - cbn [fst bind]. apply FL_fv. reflexivity.
+Qed.
+
+Lemma FL_set_use_raw : forall s c r, FL s (set_ev s c r true).
+Proof.
+  intros. constructor; cbn; try (intros; assumption); try apply efd_le_refl; try apply method_le_refl;
+    try apply pw_le_refl; auto.
+Qed.
+
+Lemma FLr_event_register : forall s j, FLr s (fst (event_register s j)).
+Proof.
+  intros s j. unfold event_register.
+  set (s0 := set_ev (set_numobjs s (numobjs s + 1)) (ev_count (set_numobjs s (numobjs s + 1)) + 1)
+                    (ev_reg (set_numobjs s (numobjs s + 1))) (use_raw (set_numobjs s (numobjs s + 1)))).
+  assert (F0 : FL s s0) by (apply FL_fv; reflexivity).
+  eapply FLr_trans; [exact F0|]. clearbody s0. cbv zeta.
+  destruct (ev_count (set_numobjs s (numobjs s + 1)) =? 0).
+  - destruct (negb (use_raw s0)).
+    + destruct (is_epoll s0).
+      * pose proof (FLr_rx_on s0) as X. destruct (event_rx_on s0) as [[s1|s1] b]; unfold FLr in X; simpl in X.
+        { destruct b; cbv beta iota.
+          - eapply FLr_trans; [eapply FL_trans; [exact X|apply (FL_set_use_raw s1)]|]. apply er_tail.
+          - eapply FLr_trans; [exact X|]. apply er_tail. }
+        { cbv beta iota. cbn [fst bind]. exact X. }
+      * cbv beta iota. eapply FLr_trans; [apply (FL_set_use_raw s0)|]. apply er_tail.
+    + cbv beta iota. apply er_tail.
+  - cbv beta iota. cbn [fst bind]. apply FL_fv. reflexivity.
+Qed.
+
+Lemma FLr_event_unregister : forall s j, FLr s (event_unregister s j).
+Proof.
+  intros s j. unfold event_unregister. cbv zeta.
+  match goal with |- FLr s (bind (if ?c then _ else _) _) => destruct c end.
+  - match goal with |- FLr s (bind (if ?c then _ else _) _) => destruct c end;
+      (apply FLr_bind'; [apply Kr_FLr; eapply Kr_trans; [|first [apply Kr_raw_unregister|apply Kr_rx_off]]; reflexivity
+                        |intro; apply FL_fv; reflexivity]).
+  - cbn [bind]. apply FL_fv. reflexivity.
+Qed.
+
+(* ---- every action of a handler script ---- *)
+Lemma FLr_Kr_emit : forall s e r, Kr (emit s e) r -> FLr s r.
+Proof. intros s e r H. apply Kr_FLr. eapply Kr_trans; [|exact H]. reflexivity. Qed.
+
+Lemma FLr_emit : forall s e r, FLr (emit s e) r -> FLr s r.
+Proof. intros s e r H. eapply FLr_trans; [|exact H]. apply FL_fv. reflexivity. Qed.
+
+Lemma FLr_keep : forall s s', fv s' = fv s -> FLr s (R s').
+Proof. intros. apply FL_fv. assumption. Qed.
+
+Lemma FLr_do_action : forall s a, FLr s (do_action s a).
+Proof.
+  intros s a. unfold do_action. cbv zeta. destruct a.
+  - (* AFdReg *) destruct (registered (getfd s i)); [apply FL_refl|].
+    destruct (k_open (kern s) (fdnum (getfd s i))); [|apply FL_refl]. eapply FLr_Kr_emit. apply Kr_fd_register.
+  - (* AFdTry *) destruct (registered (getfd s i)); [apply FL_refl|].
+    pose proof (Kr_fd_register_try (emit s (TAct (AFdTry i))) i) as X.
+    destruct (fd_register_try (emit s (TAct (AFdTry i))) i) as [r f]. simpl in X.
+    apply FLr_bind'; [eapply FLr_Kr_emit; exact X|intro; apply FLr_keep; reflexivity].
+  - destruct (registered (getfd s i)); [|apply FL_refl]. eapply FLr_Kr_emit. apply Kr_fd_unregister.
+  - eapply FLr_Kr_emit. apply Kr_fd_set_handler.
+  - apply FLr_keep. reflexivity.
+  - destruct (registered (getfd s i)); [apply FL_refl|apply FLr_keep; reflexivity].
+  - apply FLr_keep. unfold fv. cbn. rewrite flt_set_cond. reflexivity.
+  - destruct (registered (getfd s i)); [apply FL_refl|]. apply FLr_keep. unfold fv. cbn. rewrite flt_user_close. reflexivity.
+  - apply FLr_keep. reflexivity.
+  - destruct (timer_registered s j); [apply FL_refl|]. eapply FLr_Kr_emit. apply Kr_lift_heap.
+  - destruct (timer_registered s j); [apply FL_refl|].
+    eapply FLr_trans; [apply FL_fv; apply (fv_validate s)|]. eapply FLr_Kr_emit. apply Kr_lift_heap.
+  - destruct (timer_registered s j); [|apply FL_refl]. eapply FLr_Kr_emit. apply Kr_lift_heap.
+  - destruct (timer_registered s j); [apply FL_refl|apply FLr_keep; reflexivity].
+  - destruct (task_registered s j); [apply FL_refl|]. apply FLr_keep. rewrite fv_task_register. reflexivity.
+  - destruct (task_registered s j); [|apply FL_refl]. apply FLr_keep. reflexivity.
+  - destruct (task_registered s j); [apply FL_refl|apply FLr_keep; reflexivity].
+  - (* AEvReg *) destruct (ev_reg s j); [apply FL_refl|].
+    pose proof (FLr_event_register (emit s (TAct (AEvReg j))) j) as X.
+    destruct (event_register (emit s (TAct (AEvReg j))) j) as [r f]. simpl in X.
+    apply FLr_bind'; [eapply FLr_emit; exact X|intro; apply FLr_keep; reflexivity].
+  - destruct (ev_reg s j); [|apply FL_refl]. eapply FLr_emit. apply FLr_event_unregister.
+  - destruct (ev_reg s j); [|apply FL_refl]. apply FLr_keep. rewrite fv_event_post. reflexivity.
+  - destruct (ev_reg s j); [apply FL_refl|apply FLr_keep; reflexivity].
+  - (* ARwReg *) destruct (rw_reg s j); [apply FL_refl|].
+    pose proof (FLr_raw_register (emit s (TAct (ARwReg j))) j) as X.
+    destruct (raw_register (emit s (TAct (ARwReg j))) j) as [r f]. simpl in X.
+    apply FLr_bind'; [eapply FLr_emit; exact X|intro; apply FLr_keep; reflexivity].
+  - destruct (rw_reg s j); [|apply FL_refl]. eapply FLr_Kr_emit. apply Kr_raw_unregister.
+  - destruct (rw_reg s j); [|apply FL_refl]. apply FLr_keep. rewrite fv_raw_post. reflexivity.
+  - destruct (rw_reg s j); [apply FL_refl|apply FLr_keep; reflexivity].
+  - apply FLr_keep. reflexivity.
+  - apply FLr_keep. reflexivity.
+  - apply FLr_keep. reflexivity.
+  - apply FLr_keep. rewrite fv_validate. reflexivity.
+Qed.
+
+Lemma FLr_run_acts : forall l s, FLr s (run_acts s l).
+Proof.
+  induction l as [|a l IH]; intro s; simpl; [apply FL_refl|]. apply FLr_bind'; [apply FLr_do_action|apply IH].
+Qed.
+
+(* ---- handler scripts, events, descriptors, timers, tasks ---- *)
+Section WithScenario.
+Variable sc : scenario.
+
+Lemma FLr_run_script : forall s key, FLr s (run_script sc s key).
+Proof.
+  intros. unfold run_script. destruct (sc_handlers sc key); [apply FL_refl|].
+  eapply FLr_trans; [|apply FLr_run_acts]. apply FL_fv. reflexivity.
+Qed.
+
+Lemma FLr_events_loop : forall fuel s, FLr s (events_loop sc fuel s).
+Proof.
+  induction fuel as [|f IH]; intro s; cbn [events_loop]; destruct (ev_batch s) as [|ie rest]; try apply FL_refl.
+  - apply FLr_halt. apply FL_refl.
+  - apply FLr_bind'.
+    + eapply FLr_trans; [|apply FLr_run_script]. apply FL_fv. reflexivity.
+    + intro s1. destruct rest; [apply FL_refl|apply IH].
+Qed.
+
+Lemma FLr_run_pending : forall s, FLr s (run_pending_events sc s).
+Proof.
+  intros. unfold run_pending_events. destruct (ev_pending s); [apply FL_refl|].
+  eapply FLr_trans; [|apply FLr_events_loop]. apply FL_fv. reflexivity.
+Qed.
+
+Lemma FLr_raw_got_event : forall s j, FLr s (raw_got_event sc s j).
+Proof.
+  intros. unfold raw_got_event. cbv zeta.
+  match goal with |- context [k_read ?a ?b ?c] => pose proof (flt_read a b c) as F; destruct (k_read a b c) as [k1 x] end.
+  simpl in F. destruct x as [n|e].
+  - destruct (n =? 0); [apply FLr_halt; apply FL_kern; exact F|].
+    destruct (j =? KICK_RAW).
+    + eapply FLr_trans; [apply FL_kern; exact F|apply FLr_run_pending].
+    + eapply FLr_trans; [apply FL_kern; exact F|]. eapply FLr_emit. apply FLr_run_script.
+  - destruct e; try (apply FLr_halt; apply FL_kern; exact F). apply FL_kern. exact F.
+Qed.
+
+Lemma FLr_call_fd : forall s k band h, FLr s (call_fd sc s k band h).
+Proof.
+  intros. unfold call_fd. destruct h as [hid|]; [|apply FL_refl].
+  destruct (1000 <=? hid); [apply FLr_raw_got_event|eapply FLr_emit; apply FLr_run_script].
+Qed.
+
+Lemma FLr_dispatch_active : forall fuel s, FLr s (dispatch_active sc fuel s).
+Proof.
+  induction fuel as [|f IH]; intro s; cbn [dispatch_active]; destruct (active s) as [|k rest]; try apply FL_refl.
+  - apply FLr_halt. apply FL_refl.
+  - eapply (FLr_trans s (set_handled (set_active s rest) (Some k))); [apply FL_fv; reflexivity|].
+    apply FLr_bind'.
+    { match goal with |- context [if ?c then _ else _] => destruct c end; [apply FLr_call_fd|apply FL_refl]. }
+    intro s1. apply FLr_bind'.
+    { destruct (handled s1); [|apply FL_refl].
+      match goal with |- context [if ?c then _ else _] => destruct c end; [apply FLr_call_fd|apply FL_refl]. }
+    intro s2. apply FLr_bind'; [|apply IH].
+    destruct (handled s2); [|apply FL_refl].
+    match goal with |- context [if ?c then _ else _] => destruct c end; [apply FLr_call_fd|apply FL_refl].
+Qed.
+
+Lemma FLr_timers_dispatch : forall fuel s, FLr s (timers_dispatch sc fuel s).
+Proof.
+  induction fuel as [|f IH]; intro s; cbn [timers_dispatch]; destruct (HeapModel.batch (heap s)) as [|t rest]; try apply FL_refl.
+  - apply FLr_halt. apply FL_refl.
+  - apply FLr_bind'; [|apply IH].
+    eapply FLr_trans; [|eapply FLr_emit; apply FLr_run_script].
+    apply FL_fv. rewrite fv_validate. reflexivity.
+Qed.
+
+Lemma FLr_run_timers : forall s, FLr s (run_timers sc s).
+Proof.
+  intros. unfold run_timers. destruct (HeapModel.num (heap s) =? 0); [apply FL_refl|]. cbv zeta.
+  eapply FLr_trans; [apply FL_fv; apply (fv_validate s)|].
+  apply FLr_bind'; [apply Kr_FLr; apply Kr_lift_heap|intro; apply FLr_timers_dispatch].
+Qed.
+
+Lemma FLr_tasks_loop : forall fuel s, FLr s (tasks_loop sc fuel s).
+Proof.
+  induction fuel as [|f IH]; intro s; cbn [tasks_loop]; destruct (cur s) as [[|k rest]|]; try apply FL_refl;
+    try (apply FLr_keep; reflexivity).
+  apply FLr_bind'; [|apply IH].
+  destruct (k =? LOCAL_TASK).
+  - eapply FLr_trans; [|apply FLr_run_pending]. apply FL_fv. reflexivity.
+  - eapply FLr_trans; [|eapply FLr_emit; apply FLr_run_script]. apply FL_fv. reflexivity.
+Qed.
+
+Lemma FLr_run_tasks : forall s, FLr s (run_tasks sc s).
+Proof. intros. unfold run_tasks. cbv zeta. eapply FLr_trans; [|apply FLr_tasks_loop]. apply FL_fv. reflexivity. Qed.
+
+Lemma FLr_wait_enter : forall s, FLr s (wait_enter sc s).
+Proof.
+  intros. unfold wait_enter. cbv zeta. destruct (sc_limit sc <? nwait (kern s) + 1); [apply FLr_halt; apply FL_refl|].
+  eapply FLr_trans; [|apply FLr_run_acts]. apply FL_kern. reflexivity.
+Qed.
+
+(* ---- the kernel waits ---- *)
+Definition FLw (s : core) (w : wres) : Prop :=
+  match w with WR s1 _ | WE s1 => FL s s1 | WH r => FLr s r end.
+
+Lemma FLw_trans : forall a b w, FL a b -> FLw b w -> FLw a w.
+Proof.
+  intros a b w H1 H2. destruct w; cbn [FLw] in *; [eapply FL_trans; eauto|eapply FL_trans; eauto|eapply FLr_trans; eauto].
+Qed.
+
+Lemma FLw_do_epoll_wait : forall s call maxev timeout, FLw s (do_epoll_wait sc s call maxev timeout).
+Proof.
+  intros. unfold do_epoll_wait. pose proof (FLr_wait_enter s) as X.
+  destruct (wait_enter sc s) as [s1|s1]; [|exact X]. unfold FLr in X. simpl in X. cbv zeta.
+  eapply FLw_trans; [exact X|]. clear X.
+  set (s2 := emit s1 (TWait (nwait (kern s1)) call maxev timeout (interest_of (kern s1)) (ground (kern s1)))).
+  assert (F2 : FL s1 s2) by (apply FL_fv; reflexivity). eapply FLw_trans; [exact F2|]. clearbody s2.
+  destruct (mem_z (nwait (kern s1)) (eintr_waits (flt (kern s2)))).
+  - cbn [FLw]. destruct (0 <? timeout); apply FL_fv; reflexivity.
+  - pose proof (flt_epoll_sleep (kern s2) maxev timeout (sc_rot sc (nwait (kern s1)))) as F.
+    destruct (k_epoll_sleep (kern s2) maxev timeout (sc_rot sc (nwait (kern s1)))) as [k1 evs|k1| |]; cbn [FLw].
+    + eapply FL_trans; [apply FL_kern; exact F|apply FL_fv; reflexivity].
+    + apply FL_kern. exact F.
+    + apply FLr_halt. apply FL_refl.
+    + apply FLr_halt. apply FL_refl.
+Qed.
+
+(* iv_fd_epoll_wait: epoll_pwait2_support is cleared exactly here, and only on ENOSYS / EPERM *)
+Lemma FL_clear_pwait2 : forall s, pwait2 s = true ->
+  no_pwait2 (flt (kern s)) || perm_pwait2 (flt (kern s)) = true -> FL s (set_epoll s (epfd s) (tfd s) false).
+Proof.
+  intros s P O. constructor; cbn; try apply efd_le_refl; try apply method_le_refl; auto.
+  right. auto.
+Qed.
+
+Lemma FLw_epoll_wait_m : forall s abs maxev, FLw s (epoll_wait_m sc s abs maxev).
+Proof.
+  intros. unfold epoll_wait_m. cbv zeta.
+  assert (V : forall s0, FLw s0 (let '(s1, ms) := to_msec s0 abs in
+                                  do_epoll_wait sc s1 0 maxev (if ms <? 0 then -1 else ms * 1000000))).
+  { intro s0. pose proof (fv_to_msec s0 abs) as F. destruct (to_msec s0 abs) as [s1 ms]. simpl in F.
+    eapply FLw_trans; [apply FL_fv; exact F|apply FLw_do_epoll_wait]. }
+  destruct (pwait2 s) eqn:P; [|apply V].
+  pose proof (fv_to_relative s abs) as F. destruct (to_relative s abs) as [s1 rel]. simpl in F.
+  eapply FLw_trans; [apply FL_fv; exact F|].
+  destruct (no_pwait2 (flt (kern s1)) || perm_pwait2 (flt (kern s1))) eqn:O.
+  - eapply FLw_trans; [|apply V]. apply FL_clear_pwait2; [|exact O].
+    unfold fv in F. inversion F. congruence.
+  - apply FLw_do_epoll_wait.
+Qed.
+
+Lemma fv_epoll_process : forall evs s re tm, fv (fst (fst (epoll_process s evs re tm))) = fv s.
+Proof.
+  induction evs as [|[[a bits] data] evs IH]; intros s re tm; cbn [epoll_process]; [reflexivity|].
+  destruct (data =? -1); [apply IH|].
+  destruct ((data =? -2) && (method s =? M_ET)); [apply IH|]. rewrite IH. apply fv_activate.
+Qed.
+
+Lemma FLr_epoll_poll : forall s abs, FLr s (fst (epoll_poll sc s abs)).
+Proof.
+  intros. unfold epoll_poll. cbv zeta.
+  pose proof (Kr_flush_pending (S (length (notify s))) s) as X.
+  destruct (epoll_flush_pending (S (length (notify s))) s) as [s1|s1]; [|apply Kr_FLr; exact X].
+  unfold Kr in X. simpl in X. eapply FLr_trans; [apply FL_fv; exact X|]. clear X.
+  match goal with |- context [epoll_wait_m sc s1 abs ?m] =>
+    pose proof (FLw_epoll_wait_m s1 abs m) as W; destruct (epoll_wait_m sc s1 abs m) as [s2 evs|s2|r] end;
+    simpl in W; cbn [fst].
+  - eapply FLr_trans; [exact W|].
+    pose proof (fv_epoll_process evs (invalidate_now s2) false false) as F.
+    destruct (epoll_process (invalidate_now s2) evs false false) as [[s3 re] tm]. simpl in F. cbn [fst].
+    eapply FLr_trans; [apply FL_fv; rewrite F; reflexivity|].
+    apply FLr_bind'.
+    + destruct tm; [|apply FL_refl].
+      pose proof (flt_read (kern s3) (tfd s3) 8) as F3. destruct (k_read (kern s3) (tfd s3) 8) as [k1 x]. simpl in F3.
+      destruct x; [apply FL_kern; exact F3|apply FLr_halt; apply FL_kern; exact F3].
+    + intro s4. destruct re; [apply FLr_run_pending|apply FL_refl].
+  - eapply FL_trans; [exact W|apply FL_fv; reflexivity].
+  - exact W.
+Qed.
+
+Lemma fv_poll_activate : forall keys revs s, fv (poll_activate s keys revs) = fv s.
+Proof.
+  induction keys as [|k keys IH]; intros revs s; cbn [poll_activate]; [reflexivity|].
+  destruct revs as [|r revs]; [reflexivity|]. rewrite IH. apply fv_activate.
+Qed.
+
+Lemma FLr_do_poll_wait : forall s call timeout, FLr s (fst (do_poll_wait sc s call timeout)).
+Proof.
+  intros. unfold do_poll_wait. pose proof (FLr_wait_enter s) as X.
+  destruct (wait_enter sc s) as [s1|s1]; [|exact X]. unfold FLr in X. cbn [res_state] in X. cbv zeta.
+  eapply FLr_trans; [exact X|]. clear X.
+  match goal with |- context [emit s1 ?e] => set (s2 := emit s1 e) end.
+  assert (F2 : FL s1 s2) by (apply FL_fv; reflexivity). eapply FLr_trans; [exact F2|]. clearbody s2.
+  destruct (mem_z (nwait (kern s1)) (eintr_waits (flt (kern s2)))).
+  - cbn [fst]. destruct (0 <? timeout); apply FLr_keep; reflexivity.
+  - pose proof (flt_poll_sleep (kern s2) (pfds s2) timeout) as F.
+    destruct (k_poll_sleep (kern s2) (pfds s2) timeout) as [k1 revs|]; cbn [fst].
+    + apply FLr_keep. rewrite fv_poll_activate. unfold fv. cbn. rewrite F. reflexivity.
+    + apply FLr_halt. apply FL_refl.
+Qed.
+
+(* iv_fd_poll_ppoll: the method is switched ppoll -> poll here, and only on ENOSYS *)
+Lemma FL_ppoll_to_poll : forall s, method s = M_PP -> no_ppoll (flt (kern s)) = true ->
+  FL s (set_method (invalidate_now s) M_PO).
+Proof.
+  intros s M O. constructor; cbn; try apply efd_le_refl; try apply pw_le_refl; auto.
+  right. right. auto.
+Qed.
+
+Lemma FLr_poll_poll : forall s abs, FLr s (fst (poll_poll sc s abs)).
+Proof.
+  intros. unfold poll_poll. cbv zeta.
+  assert (V : forall s0, FLr s0 (fst (let '(s1, ms) := to_msec s0 abs in
+                                       do_poll_wait sc s1 2 (if ms <? 0 then -1 else ms * 1000000)))).
+  { intro s0. pose proof (fv_to_msec s0 abs) as F. destruct (to_msec s0 abs) as [s1 ms]. cbn [fst] in F.
+    eapply FLr_trans; [apply FL_fv; exact F|apply FLr_do_poll_wait]. }
+  destruct (method s =? M_PP) eqn:M; [|apply V]. apply Z.eqb_eq in M.
+  pose proof (fv_to_relative s abs) as F. destruct (to_relative s abs) as [s1 rel]. cbn [fst] in F.
+  eapply FLr_trans; [apply FL_fv; exact F|].
+  destruct (no_ppoll (flt (kern s1))) eqn:O.
+  - eapply FLr_trans; [|apply V]. apply FL_ppoll_to_poll; [|exact O]. unfold fv in F. inversion F. congruence.
+  - apply FLr_do_poll_wait.
+Qed.
+
+Lemma FLr_m_poll : forall s abs, FLr s (fst (m_poll sc s abs)).
+Proof. intros. unfold m_poll. destruct (is_epoll s); [apply FLr_epoll_poll|apply FLr_poll_poll]. Qed.
+
+Lemma fv_tfd_settime : forall s d, fv (tfd_settime s d) = fv s.
+Proof. intros. unfold tfd_settime, fv. cbn. rewrite flt_timerfd_settime. reflexivity. Qed.
+
+(* iv_fd_epoll_timerfd_set_poll_timeout: the method is switched epoll-timerfd -> epoll here, and
+   only when timerfd_create fails, which it does iff the oracle has no timerfd *)
+Lemma FLr_set_poll_timeout : forall s a, method s = M_ET -> FLr s (fst (set_poll_timeout s a)).
+Proof.
+  intros s a M. unfold set_poll_timeout. cbv zeta.
+  destruct (tfd s =? -1).
+  - destruct (k_timerfd_create (kern s)) as [k1 [fd|e]] eqn:E.
+    + pose proof (flt_timerfd_create (kern s)) as F. rewrite E in F. cbn [fst] in F.
+      match goal with |- context [ctl_retry ?a ?b ?c ?d ?e] => destruct (ctl_retry a b c d e) as [s1 r] eqn:C end.
+      apply fv_ctl_retry in C.
+      assert (F1 : FL s s1).
+      { apply FL_fv. rewrite C. unfold fv. cbn. rewrite F. reflexivity. }
+      destruct r; cbn [fst].
+      * apply FLr_halt. exact F1.
+      * eapply FLr_trans; [exact F1|]. apply FLr_keep. apply fv_tfd_settime.
+    + cbn [fst]. unfold FLr. cbn [res_state].
+      assert (O : no_timerfd (flt (kern s)) = true).
+      { unfold k_timerfd_create in E. destruct (no_timerfd (flt (kern s))); [reflexivity|].
+        unfold k_alloc in E. cbn in E. discriminate E. }
+      assert (F : k1 = kern s).
+      { unfold k_timerfd_create in E. rewrite O in E. inversion E. reflexivity. }
+      subst k1. constructor; cbn; try apply efd_le_refl; try apply pw_le_refl; auto.
+      right. left. auto.
+  - cbn [fst]. apply FLr_keep. apply fv_tfd_settime.
+Qed.
+
+Lemma FLr_timeout_check : forall s abs, method s = M_ET -> FLr s (fst (timeout_check s abs)).
+Proof.
+  intros s abs M. unfold timeout_check. cbv zeta.
+  match goal with |- context [if ?c then (R s, true) else _] => destruct c end; [apply FL_refl|].
+  set (s1 := if last_abs_count s =? 5 then tfd_settime s 0 else s).
+  assert (F1 : fv s1 = fv s) by (unfold s1; destruct (last_abs_count s =? 5); [apply fv_tfd_settime|reflexivity]).
+  clearbody s1.
+  destruct (abs_cmp abs (last_abs s) =? 0).
+  - set (s2 := if last_abs_count s1 <? 5 then set_last_abs s1 (last_abs s1) (last_abs_count s1 + 1) else s1).
+    assert (F2 : fv s2 = fv s) by (unfold s2; destruct (last_abs_count s1 <? 5); rewrite <- F1; reflexivity).
+    clearbody s2.
+    destruct (last_abs_count s2 =? 5); [|cbn [fst]; apply FLr_keep; exact F2].
+    destruct abs as [a|]; [|cbn [fst]; apply FLr_keep; exact F2].
+    eapply FLr_trans; [apply FL_fv; exact F2|]. apply FLr_set_poll_timeout.
+    unfold fv in F2. inversion F2. congruence.
+  - destruct abs; cbn [fst]; apply FLr_keep; rewrite <- F1; reflexivity.
+Qed.
+
+Lemma FLr_poll_and_run : forall s abs, FLr s (fst (poll_and_run sc s abs)).
+Proof.
+  intros. unfold poll_and_run.
+  assert (G : forall p : res * bool, FLr s (fst p) ->
+              FLr s (fst (let '(r, rt) := p in (bind r (fun s0 => dispatch_active sc (S (length (active s0))) s0), rt)))).
+  { intros [r rt] H. cbn [fst] in *. apply FLr_bind'; [exact H|intro; apply FLr_dispatch_active]. }
+  apply G. destruct (method s =? M_ET) eqn:M; [|apply FLr_m_poll]. apply Z.eqb_eq in M.
+  pose proof (FLr_timeout_check s abs M) as X.
+  destruct (timeout_check s abs) as [[s1|s1] b]; unfold FLr in X; cbn [fst res_state] in X.
+  - destruct b.
+    + pose proof (FLr_m_poll s1 None) as Y. destruct (m_poll sc s1 None) as [r rt]. cbn [fst] in *.
+      eapply FLr_trans; [exact X|]. apply FLr_bind'; [exact Y|]. intro s2. destruct rt; apply FLr_keep; reflexivity.
+    + eapply FLr_trans; [exact X|apply FLr_m_poll].
+  - exact X.
+Qed.
+
+Lemma FLr_main_loop : forall fuel s rt, FLr s (main_loop sc fuel s rt).
+Proof.
+  induction fuel as [|f IH]; intros s rt; cbn [main_loop]; [apply FLr_halt; apply FL_refl|].
+  apply FLr_bind'; [destruct rt; [apply FLr_run_timers|apply FL_refl]|]. intro s1.
+  apply FLr_bind'; [apply FLr_run_tasks|]. intro s2.
+  destruct (quit s2 || (numobjs s2 =? 0)); [apply FL_refl|].
+  match goal with |- context [poll_and_run sc s2 ?a] =>
+    pose proof (FLr_poll_and_run s2 a) as X; destruct (poll_and_run sc s2 a) as [r rt'] end.
+  cbn [fst] in X. apply FLr_bind'; [exact X|intro; apply IH].
+Qed.
+
+(* ---- tear-down and the whole run ---- *)
+Lemma FLr_teardown_obj : forall s i, FLr s (teardown_obj s i).
+Proof.
+  intros. unfold teardown_obj.
+  repeat (apply FLr_bind'; [apply FLr_do_action|intro]). apply FLr_do_action.
+Qed.
+
+Lemma FLr_teardown : forall l s, FLr s (teardown s l).
+Proof.
+  induction l as [|i l IH]; intro s; cbn [teardown]; [apply FL_refl|].
+  apply FLr_bind'; [apply FLr_teardown_obj|apply IH].
+Qed.
+
+Lemma fv_deinit : forall s, fv (deinit sc s) = fv s.
+Proof.
+  intros. unfold deinit. destruct ((sc_backend sc =? M_ET) || (sc_backend sc =? M_EP)); [|reflexivity].
+  cbv zeta. rewrite fv_do_close. destruct (tfd s =? -1); [reflexivity|apply fv_do_close].
+Qed.
+
+(* the run of Core/CoreModel.run_scenario, before the trace is read off *)
+Definition run_result : res :=
+  bind (run_acts (core0 sc) (sc_setup sc)) (fun s =>
+  bind (main_loop sc (Z.to_nat (sc_limit sc) + 2) (set_quit (emit s TMain) false) true) (fun s =>
+  let s := emit s (TEnd (if quit s then 1 else 0) (numobjs s)) in
+  bind (teardown s (zseq 0 16)) (fun s =>
+  let s := emit s (TTear (numobjs s)) in
+  let s := deinit sc s in
+  R (emit s (TDone (open_dyn (kern s))))))).
+
+Lemma run_result_trace : run_scenario sc = rev (trace (res_state run_result)).
+Proof. reflexivity. Qed.
+
+Lemma FLr_run : FLr (core0 sc) run_result.
+Proof.
+  unfold run_result. apply FLr_bind'; [apply FLr_run_acts|]. intro s1.
+  apply FLr_bind'; [eapply FLr_trans; [|apply FLr_main_loop]; apply FL_fv; reflexivity|]. intro s2. cbv zeta.
+  apply FLr_bind'; [eapply FLr_trans; [|apply FLr_teardown]; apply FL_fv; reflexivity|]. intro s3.
+  apply FLr_keep.
+  transitivity (fv (deinit sc (emit s3 (TTear (numobjs s3))))); [reflexivity|]. rewrite fv_deinit. reflexivity.
+Qed.
+
+(* ---- idempotence: what a write stores is decided by the (constant) oracle ---- *)
+Definition wres_state (w : wres) : core :=
+  match w with WR s _ | WE s => s | WH r => res_state r end.
+
+Lemma FLw_state : forall s w, FLw s w -> FL s (wres_state w).
+Proof. intros s w H. destruct w; exact H. Qed.
+
+Lemma pw_le_false : forall f b, pw_le f b false -> b = false.
+Proof. unfold pw_le. intros f b [H|[H _]]; [exact H|discriminate]. Qed.
+
+(* iv_fd_epoll_wait with epoll_pwait2_support still set: afterwards it is clear iff the kernel
+   answers ENOSYS / EPERM to epoll_pwait2 *)
+Lemma pwait2_cleared_iff : forall s abs maxev, pwait2 s = true ->
+  pwait2 (wres_state (epoll_wait_m sc s abs maxev)) =
+  negb (no_pwait2 (flt (kern s)) || perm_pwait2 (flt (kern s))).
+Proof.
+  intros s abs maxev P. pose proof (FLw_state _ _ (FLw_epoll_wait_m s abs maxev)) as X.
+  destruct X as [X _ _ _ _ _]. rewrite P in X. destruct X as [X|(_ & X & O)].
+  - (* not cleared: then the oracle cannot have demanded it *)
+    rewrite X. destruct (no_pwait2 (flt (kern s)) || perm_pwait2 (flt (kern s))) eqn:O; [|reflexivity].
+    exfalso. unfold epoll_wait_m in X. cbv zeta in X. rewrite P in X.
+    pose proof (fv_to_relative s abs) as F. destruct (to_relative s abs) as [s1 rel]. cbn [fst] in F.
+    assert (O1 : no_pwait2 (flt (kern s1)) || perm_pwait2 (flt (kern s1)) = true).
+    { unfold fv in F. inversion F. congruence. }
+    rewrite O1 in X.
+    pose proof (fv_to_msec (set_epoll s1 (epfd s1) (tfd s1) false) abs) as F2.
+    destruct (to_msec (set_epoll s1 (epfd s1) (tfd s1) false) abs) as [s2 ms]. cbn [fst] in F2.
+    match type of X with pwait2 (wres_state ?w) = true =>
+      assert (W : FL s2 (wres_state w)) by (apply FLw_state; apply FLw_do_epoll_wait) end.
+    destruct W as [W _ _ _ _ _]. unfold fv in F2. inversion F2.
+    match goal with H : pwait2 s2 = _ |- _ => rewrite H in W end. cbn in W. apply pw_le_false in W. congruence.
+  - rewrite X, O. reflexivity.
+Qed.
+
+(* iv_fd_poll_ppoll with method ppoll: afterwards the method is poll iff ppoll answers ENOSYS *)
+Lemma ppoll_switched_iff : forall s abs, method s = M_PP ->
+  method (res_state (fst (poll_poll sc s abs))) = if no_ppoll (flt (kern s)) then M_PO else M_PP.
+Proof.
+  intros s abs M. pose proof (FLr_poll_poll s abs) as X. unfold FLr in X.
+  destruct X as [_ _ _ X _ _]. rewrite M in X. unfold method_le, M_ET, M_EP, M_PP, M_PO in *.
+  destruct (no_ppoll (flt (kern s))) eqn:O.
+  - destruct X as [X|[X|X]]; [|lia|lia]. exfalso.
+    unfold poll_poll in X. cbv zeta in X. rewrite M in X. change (2 =? M_PP) with true in X. cbv iota in X.
+    pose proof (fv_to_relative s abs) as F. destruct (to_relative s abs) as [s1 rel]. cbn [fst] in F.
+    assert (O1 : no_ppoll (flt (kern s1)) = true) by (unfold fv in F; inversion F; congruence).
+    rewrite O1 in X.
+    pose proof (fv_to_msec (set_method (invalidate_now s1) M_PO) abs) as F2.
+    destruct (to_msec (set_method (invalidate_now s1) M_PO) abs) as [s2 ms]. cbn [fst] in F2.
+    match type of X with method (res_state (fst ?p)) = _ =>
+      assert (W : FL s2 (res_state (fst p))) by apply FLr_do_poll_wait end.
+    destruct W as [_ _ _ W _ _]. unfold fv in F2. inversion F2.
+    match goal with H : method s2 = _ |- _ => rewrite H in W end. cbn in W.
+    unfold method_le, M_ET, M_EP, M_PP, M_PO in W. lia.
+  - destruct X as [X|[X|X]]; [exact X|lia|]. destruct X as (_ & _ & X). discriminate X.
+Qed.
+
+(* iv_fd_epoll_timerfd_set_poll_timeout: afterwards the method is epoll iff no timer descriptor
+   existed and timerfd_create answers ENOSYS *)
+Lemma timerfd_switched_iff : forall s a, method s = M_ET ->
+  method (res_state (fst (set_poll_timeout s a))) =
+  if (tfd s =? -1) && no_timerfd (flt (kern s)) then M_EP else M_ET.
+Proof.
+  intros s a M. unfold set_poll_timeout. cbv zeta. destruct (tfd s =? -1); cbn [andb].
+  - unfold k_timerfd_create. destruct (no_timerfd (flt (kern s))); [reflexivity|].
+    unfold k_alloc. cbv zeta. cbv beta iota.
+    match goal with |- context [ctl_retry ?a ?b ?c ?d ?e] => destruct (ctl_retry a b c d e) as [s1 r] eqn:C end.
+    apply fv_ctl_retry in C. unfold fv in C. inversion C.
+    destruct r; cbn [fst]; [unfold halt; cbn; congruence|].
+    pose proof (fv_tfd_settime s1 (if a =? 0 then 1 else a)) as F. unfold fv in F. inversion F. cbn [res_state]. congruence.
+  - cbn [fst res_state]. pose proof (fv_tfd_settime s (if a =? 0 then 1 else a)) as F. unfold fv in F. inversion F. congruence.
+Qed.
+
+End WithScenario.
+
+(* ---- non-vacuity: a kernel without epoll_pwait2, timerfd, ppoll and eventfd2 (eventfd exists);
+   one timer, one event, one raw event.  With the epoll-timerfd back end the run ends with
+   epoll_pwait2_support cleared and both eventfd_in_use at 1; with the ppoll back end the method
+   ends as poll, eventfd_in_use of the raw events at 1 and iv_event_use_event_raw set ---- *)
+Definition ex_faults : faults :=
+  {| no_pwait2 := true; perm_pwait2 := false; no_timerfd := true; no_ppoll := true;
+     no_eventfd2 := true; no_eventfd := false; no_create1 := false; emfile := false;
+     eintr_waits := []; eintr_ctl := 0 |}.
+Definition ex_scenario (b : Z) : scenario :=
+  {| sc_backend := b; sc_faults := ex_faults; sc_limit := 20;
+     sc_setup := [ATmRegRel 0 5000000000; AEvReg 0; ARwReg 1];
+     sc_handlers := fun _ => []; sc_wait := fun _ => []; sc_rot := fun _ => 0 |}.
+
+Lemma flags_nonvacuous :
+  fv (core0 (ex_scenario 0)) = (true, 2, 2, 0, false, ex_faults) /\
+  fv (res_state (run_result (ex_scenario 0))) = (false, 1, 1, 0, false, ex_faults) /\
+  fv (core0 (ex_scenario 2)) = (true, 2, 2, 2, false, ex_faults) /\
+  fv (res_state (run_result (ex_scenario 2))) = (true, 2, 1, 3, true, ex_faults).
+Proof. repeat match goal with |- _ /\ _ => split end; vm_compute; reflexivity. Qed.
+
+(* the name used in DESIGN.md / Properties_C14.v *)
+Notation flags_le := FL.
+Notation flags_le_res := FLr.
+Notation flags_le_wait := FLw.
